@@ -86,7 +86,12 @@ def _explore_shard(args):
         info = None
         try:
             phi = h.run(eng, p)
-            if isinstance(phi, tuple):
+            named = None
+            if isinstance(phi, list):  # list of (clause name, formula): the property is their conjunction
+                named = phi
+                phi = core.And([c for _, c in named])
+                info = {"clauses": len(named)}
+            elif isinstance(phi, tuple):
                 phi, info = phi
             outcome = "end"
         except core.PathAbort:
@@ -133,7 +138,15 @@ def _explore_shard(args):
             elif verdict == "sat":
                 st["violated"] += 1
                 if len(cexs) < max_cex:
-                    cexs.append({"values": eng.decode(m), "detail": {"kind": "vc", "info": _jsonable(info)}})
+                    failed = []
+                    if named:
+                        import z3 as _z3
+                        for nm, c in named:
+                            c = core.f_of(c)
+                            ok = c if isinstance(c, bool) else _z3.is_true(m.eval(c, model_completion=True))
+                            if not ok and nm not in failed:
+                                failed.append(nm)
+                    cexs.append({"values": eng.decode(m), "detail": {"kind": "vc", "info": _jsonable(info), "failed": failed}})
             else:
                 st["unknown"] += 1
         st["paths"] += 1
@@ -262,7 +275,9 @@ def concrete_run(h, p, values):
     eng.start_path()
     try:
         phi = h.run(eng, p)
-        if isinstance(phi, tuple):
+        if isinstance(phi, list):
+            phi = core.And([c for _, c in phi])
+        elif isinstance(phi, tuple):
             phi = phi[0]
     except core.PathAbort:
         return "abort", "precondition not met by these values"
